@@ -381,3 +381,24 @@ def _p_sel(ctx):
         cfg = o.select(pgmat=c.pg, gmat=c.pg, ptdf=None, bvmat=c.bv, gpmod=c.gm, t_cur=0, t_max=5)
         return [cfg.xconfig_decn, cfg.sample_xconfig(return_xconfig=True)]
     return p, use
+
+
+# ---- selection protocols of every family / encoding (rng handed to the protocol AND to its optimiser) ------------
+def _selproto(fam, enc):
+    def f(ctx, rng, par):
+        from .checks import c07_select as c7
+        sc = {"fam": fam, "enc": enc, "ncross": 2, "nparent": 2, "nmating": 1, "nprogeny": 2, "mo": False, "exact": True,
+              "ngen": par.get("ngen", 2), "pop": par.get("pop", 6), "unique_parents": True}
+        cls, kw, mo = c7._protocol(sc, rng, 2)
+        if enc != "subset":
+            kw["soalgo"] = c7.SO[enc](ngen=sc["ngen"], pop_size=sc["pop"], **({"rng": rng} if rng is not None else {}))
+        prot = cls(**kw)
+        cfg = prot.select(pgmat=ctx.pg, gmat=ctx.pg, ptdf=None, bvmat=ctx.bv, gpmod=ctx.gm, t_cur=0, t_max=5)
+        return [numpy.asarray(cfg.xconfig_decn), cfg.sample_xconfig(return_xconfig=True)]
+    return f
+
+
+for _fam, _encs in (("ebv", ("real", "integer", "binary")), ("gebv", ("subset", "real", "integer", "binary")), ("random", ("real", "integer", "binary")),
+                    ("ocs", ("subset", "real")), ("ohv", ("subset", "real")), ("uc", ("subset",))):
+    for _enc in _encs:
+        reg("select.%s.%s" % (_fam, _enc), heavy=True)(_selproto(_fam, _enc))
